@@ -366,6 +366,26 @@ class BA:
             return cur
         return cur
 
+    def ref_chain(self, l, depth=10):
+        """All locals met while following `_t = &[mut] P` / moves from `l` down to the base."""
+        out = [l]
+        cur = l
+        for _ in range(depth):
+            d = self.single_def(cur)
+            if d is None or d[0] != "stmt":
+                break
+            rv = d[3]
+            if rv["k"] == "ref":
+                cur = rv["place"]["l"]
+            elif rv["k"] == "use" and op_place(rv["op"]) is not None:
+                cur = op_place(rv["op"])["l"]
+            else:
+                break
+            if cur in out:
+                break
+            out.append(cur)
+        return out
+
     def trace_cond(self, o, depth=12):
         """Trace a boolean operand back to what it tests. Returns (neg, kind, info):
         kind 'call' (info=(bb, term)), 'binop' (info=(bb, rv)), 'place' (info=place),
